@@ -222,7 +222,47 @@ def r19_4(ctx):
     ctx.ob('R19.4', 'is_alive:false-before-start', ok, ia, None, 'not started -> False')
 
 
+def r19_5(ctx):
+    ctx.rule('R19.5', 'fork server: the SIGCHLD disposition it ignores for itself is saved and restored unconditionally '
+                      'in every served child before the process code runs, and the exit code of that code is written '
+                      'back', floor=4)
+    m = ctx.model
+    mn = m.func('forkserver:main')
+    saves = [(dn, v) for (dn, t, v) in q.assigns(mn, None) if isinstance(v, ast.Call) and mn.callee(v) == 'signal.signal'
+             and [ast.unparse(a) for a in v.args] == ['signal.SIGCHLD', 'signal.SIG_IGN']]
+    ok = len(saves) == 1 and isinstance(saves[0][0].ast.targets[0], ast.Name)
+    hname = ast.unparse(saves[0][0].ast.targets[0]) if ok else '?'
+    ctx.ob('R19.5', 'forkserver.main:saves-the-disposition-it-replaces', ok, mn, saves[0][0] if saves else None,
+           '%s = signal.signal(signal.SIGCHLD, signal.SIG_IGN)' % hname)
+    so = m.func('forkserver:_serve_one')
+    calls_ = [c for (n, c) in q.calls(mn, '_serve_one')]
+    P = so.positional_params()
+    ok = bool(calls_) and all(len(c.args) == len(P) and ast.unparse(c.args[-1]) == hname for c in calls_)
+    ctx.ob('R19.5', 'forkserver.main:hands-it-to-the-served-child', ok, mn, calls_[0] if calls_ else None,
+           '_serve_one(s, listener, alive_r, %s)' % hname)
+    cfg = so.cfg
+    H = P[-1]
+    rest = [n for (n, c) in q.calls(so, 'signal.signal')
+            if [ast.unparse(a) for a in c.args] == ['signal.SIGCHLD', H]]
+    runs = [n for (n, c) in q.calls(so, 'spawn._main')]
+    q.need(runs, 'forkserver._serve_one does not run the process object')
+    ok = bool(rest) and all(cfg.dominated_by(r0, rest, completed=True)[0] for r0 in runs)
+    ctx.ob('R19.5', '_serve_one:disposition-restored-on-every-path-before-the-process-runs', ok, so, rest[0] if rest else None,
+           'signal.signal(signal.SIGCHLD, handler) dominates spawn._main(): with SIGCHLD left ignored the started '
+           'process cannot wait for its own children (waitpid fails with ECHILD)')
+    code = ast.unparse(runs[0].ast.targets[0]) if isinstance(runs[0].ast, ast.Assign) else None
+    wr = [n for (n, c) in q.calls(so, 'write_unsigned') if len(c.args) == 2 and ast.unparse(c.args[1]) == code]
+    ok = code is not None and bool(wr) and cfg.must_pass(runs, [cfg.exit], wr, skip_labels=('x',))[0]
+    ctx.ob('R19.5', '_serve_one:exit-code-written-back', ok, so, wr[0] if wr else None,
+           'code = spawn._main(child_r); write_unsigned(child_w, code)')
+    ex = [(n, c) for (n, c) in q.calls(mn, 'os._exit')]
+    ok = bool(ex) and all(mn.cfg.must_pass([x for (x, cc) in q.calls(mn, '_serve_one')], [mn.cfg.exit, mn.cfg.raise_exit],
+                                           [n for (n, c) in ex])[0] for _ in [0])
+    ctx.ob('R19.5', 'forkserver.main:served-child-always-exits', ok, mn, None, 'os._exit in a finally after _serve_one')
+
+
 def run(ctx):
+    r19_5(ctx)
     r19_1(ctx)
     r19_2(ctx)
     r19_3(ctx)
